@@ -4,6 +4,8 @@ from ..core import digest_of
 from ..grids import gen_structured, relayout, make_grid, MGrid
 from ..world import dt, tick
 
+from datetime import timedelta
+
 import numpy as np
 import finam as fm
 from finam import Info, Input, Output, Mask, NoGrid
@@ -123,10 +125,104 @@ def generate(tape, tier="quick"):
             b = tape.choice(XNAMES) if tape.chance(1, 5) else tape.choice([u for u in XNAMES if CAT[u][0] == CAT[a][0]])
             warm.append([a, b])
         sc["warm"] = warm
+    if tape.chance(1, 3):
+        # the same ends inside real components of a real composition: the producer hands a newly built Info to
+        # try_connect() in every connect round (from its first or a later round on), the consumers hand theirs over in
+        # seeded rounds - the exchanges of one output's consumers then happen in different rounds, with producer rounds
+        # in between
+        # (a round in which nobody gets anywhere ends the connect phase: only consumers wait, and only one round)
+        sc["helper"] = {"prod_delay": 0, "cons_delay": [tape.draw(2) for _ in cons],
+                        "listing": tape.shuffle(list(range(len(cons) + 1)))}
     return sc
 
 
+class _HProd(fm.TimeComponent):
+    def __init__(self, out, pinfo, delay):
+        super().__init__()
+        self._out, self._pinfo, self._delay, self._calls = out, pinfo, delay, 0
+        self._time = dt(0)
+
+    def _next_time(self):
+        return self.time + timedelta(hours=1)
+
+    def _initialize(self):
+        self.outputs.add(self._out)
+        self.create_connector()
+
+    def _connect(self, start_time):
+        self._calls += 1
+        pi = {"src": self._pinfo.copy()} if self._calls > self._delay else {}
+        pd = {}
+        inf = self.connector.out_infos.get("src")
+        if inf is not None:
+            shape = tuple(1 if n == -1 else n for n in inf.grid.data_shape)
+            pd["src"] = np.zeros(shape) if shape else 0.0
+        self.try_connect(start_time, push_infos=pi, push_data=pd)
+
+    def _validate(self):
+        pass
+
+    def _update(self):
+        self._time = self.time + timedelta(hours=1)
+
+    def _finalize(self):
+        pass
+
+
+class _HCons(fm.TimeComponent):
+    def __init__(self, inp, info, delay):
+        super().__init__()
+        self._inp, self._info, self._delay, self._calls = inp, info, delay, 0
+        self._time = dt(0)
+
+    def _next_time(self):
+        return self.time + timedelta(hours=1)
+
+    def _initialize(self):
+        self.inputs.add(self._inp)
+        self.create_connector()
+
+    def _connect(self, start_time):
+        self._calls += 1
+        ex = {self._inp.name: self._info} if self._calls > self._delay else {}
+        self.try_connect(start_time, exchange_infos=ex)
+
+    def _validate(self):
+        pass
+
+    def _update(self):
+        self._time = self.time + timedelta(hours=1)
+
+    def _finalize(self):
+        pass
+
+
+def _helper_connect(sc, out, inputs, pinfo, cinfos):
+    h = sc["helper"]
+    comps = [_HProd(out, pinfo, h["prod_delay"]).with_name("prod")] + \
+        [_HCons(i, inf, d).with_name(f"cons{k}") for k, (i, inf, d) in enumerate(zip(inputs, cinfos, h["cons_delay"]))]
+    try:
+        composition = fm.Composition([comps[k] for k in h["listing"]], print_log=False, log_level=50)
+        composition.connect(dt(0))
+    except FinamMetaDataError as e:
+        return "meta", e
+    except fm.errors.FinamCircularCouplingError as e:
+        return "stuck", e
+    except Exception as e:      # noqa: BLE001
+        return "other", e
+    return "ok", None
+
+RULE = RULE + (" Family SH (sim/shared.py): real CallbackGenerators on grids and units of their own feed one real DebugConsumer, the first optionally through a user-written pull-based component with a static scalar input; all inputs are declared with ONE request Info and the composition is built once or twice from the very same Info objects; oracles owned here: sh-run-raises, sh-info (reached through the connect simulator's generator).")
+REAL = list(REAL) + ["CallbackGenerator, StaticCallbackGenerator, DebugConsumer from shared Info objects (family SH)"]
+
+
 def execute(sc):
+    if sc.get("engine") == "SH":
+        # (family SH arrives here through the connect simulator's generator: shared request Infos, see sim/shared.py)
+        from ..shared import run_shared
+        r = run_shared(sc)
+        r["violations"] = [x for x in r["violations"] if x["oracle"] in ("sh-run-raises", "sh-info")]
+        return r
     if sc.get("engine") == "E2":
         from ..connect import run_e2
         r = run_e2(sc)
@@ -198,7 +294,7 @@ def execute(sc):
     pinfo = Info(time=dt(0) if p["time"] else None, grid=pg, units=pu,
                  mask=mloc(MG) if p["mask"] == "explicit" else Mask[p["mask"]], **pmeta)
     out = Output(name="src")
-    inputs, eff = [], []
+    inputs, eff, cinfos = [], [], []
     for ci, c in enumerate(sc["cons"]):
         if c["grid"] in ("relayout", "other"):
             cg, cm = make_grid(c["layout"]), MGrid(c["layout"])
@@ -214,9 +310,10 @@ def execute(sc):
         cmeta = {}
         if c["foo"] != "absent":
             cmeta["foo"] = None if c["foo"] == "unset" else "y"
-        inp = Input(name=f"c{ci}", info=Info(time=dt(1 + ci) if c["time"] else None, grid=cg, units=cu,
-                                             mask=mloc(cm, c["mask"] == "other") if c["mask"] in ("same", "other")
-                                             else Mask[c["mask"]], **cmeta))
+        cinfo = Info(time=dt(1 + ci) if c["time"] else None, grid=cg, units=cu,
+                     mask=mloc(cm, c["mask"] == "other") if c["mask"] in ("same", "other") else Mask[c["mask"]], **cmeta)
+        inp = Input(name=f"c{ci}") if sc.get("helper") else Input(name=f"c{ci}", info=cinfo)
+        cinfos.append(cinfo)
         ad = c["adapter"]
         if ad == "scale":
             out >> Scale(2.0) >> inp
@@ -230,13 +327,16 @@ def execute(sc):
             out >> inp
         inputs.append(inp)
         eff.append((cg, cm, cu))
-    for i in inputs:
-        i.ping()
-    if not sc["late_info"]:
-        out.push_info(pinfo)
-    # ---- seeded exchange with retries
-    pending = list(sc["order"])
     status, exc = "ok", None
+    if sc.get("helper"):
+        status, exc = _helper_connect(sc, out, inputs, pinfo, cinfos)
+    else:
+        for i in inputs:
+            i.ping()
+        if not sc["late_info"]:
+            out.push_info(pinfo)
+    # ---- seeded exchange with retries
+    pending = list(sc["order"]) if not sc.get("helper") else []
     rounds = 0
     try:
         while pending and rounds < 6:
@@ -397,7 +497,8 @@ def execute(sc):
     cls = f"{want}:{status}"
     return {"violations": viol, "digest": digest_of(sc), "nontrivial": (mixed or bool(conflict)) and status in ("ok", "meta"),
             "probes": {"undetermined": int(bool(undetermined)), "late_info": int(sc["late_info"]),
-                       "long_unit_histories": int(bool(sc.get("warm")))}, "faults": {},
+                       "long_unit_histories": int(bool(sc.get("warm"))),
+                       "ends_inside_real_components": int(bool(sc.get("helper")))}, "faults": {},
             "sig": cls + str(sc["order"]), "cls": cls, "sim_hours": 0,
             "outcome": {"expected": want, "status": status, "conflict": conflict[:2], "undetermined": undetermined[:2]}}
 
